@@ -354,6 +354,19 @@ def render_tla(zoo: dict, module: str = "Zoo", classes: list[str] | None = None)
     L.append("SimplePools == " + _tla_set(_tla_str(pl) for pl in simple))
     L.append("PoolStr == " + _tla_rec((pl, _tla_seq(chars(x) for x in _P.POOLSETS["plain"][pl][:3])) for pl in simple))
     L.append("PoolType == " + _tla_rec((pl, _tla_seq(ttag(x) for x in _P.POOLSETS["plain"][pl][:3])) for pl in simple))
+    # the atom a property takes when the constructor is called without it (99: the default is not a pool value)
+    def default_atom(f):
+        if "default" not in f or f.get("default") is None:
+            return 0
+        try:
+            val = eval(f["default"], {})
+        except Exception:
+            return 99
+        pool = _P.POOLSETS["plain"][f["pool"]]
+        idx = [j for j, x in enumerate(pool) if type(x) is type(val) and x == val]
+        return idx[0] if idx else 99
+    L.append("DefaultAtom == " + _tla_rec(
+        (c, _tla_rec((f["n"], str(default_atom(f))) for f in zi.prop_fields(c))) for c in order))
     L.append("====")
     return "\n".join(L) + "\n"
 
